@@ -2136,8 +2136,11 @@ func (r *Resolvable) walkFloat(f *Float, value *astjson.Value) bool {
 	}
 	if r.render() {
 		if r.options.ApolloCompatibilityTruncateFloatValues {
-			floatValue := value.GetFloat64()
-			if floatValue == float64(int64(floatValue)) {
+			// parse the literal exactly: astjson's GetFloat64 is a best-effort parse that can be off by
+			// one ulp (9.2e18 -> 9199999999999998976), which the %d rendering below would expose
+			r.marshalBuf = value.MarshalTo(r.marshalBuf[:0])
+			floatValue, err := strconv.ParseFloat(unsafebytes.BytesToString(r.marshalBuf), 64)
+			if err == nil && floatValue == float64(int64(floatValue)) {
 				_, _ = fmt.Fprintf(r.out, "%d", int64(floatValue))
 				return false
 			}
